@@ -115,18 +115,28 @@ def strip_comments(src):
     return ''.join(out)
 
 
-def grep_forbidden():
-    """forbidden tokens anywhere in the project's own Lean sources (comments excluded)"""
+def import_closure(relpaths):
+    """project files transitively imported by the given files (relative to lean/)"""
+    seen, todo = set(), list(relpaths)
+    while todo:
+        rp = todo.pop()
+        if rp in seen or not os.path.exists(os.path.join(LEAN, rp)):
+            continue
+        seen.add(rp)
+        for m in re.finditer(r'^import\s+(PyaisVerif(?:\.[A-Za-z0-9_]+)*)', open(os.path.join(LEAN, rp)).read(), re.M):
+            todo.append(m.group(1).replace('.', '/') + '.lean')
+    return sorted(seen)
+
+
+def grep_forbidden(relpaths):
+    """forbidden tokens in the property files and everything of the project they import
+    (comments excluded)"""
     hits = []
-    for root, dirs, files in os.walk(LEAN):
-        dirs[:] = [d for d in dirs if d != '.lake']
-        for fn in files:
-            if fn.endswith('.lean'):
-                p = os.path.join(root, fn)
-                body = strip_comments(open(p).read())
-                for ln, line in enumerate(body.splitlines(), 1):
-                    if FORBIDDEN.search(line):
-                        hits.append('%s:%d: %s' % (os.path.relpath(p, LEAN), ln, line.strip()[:120]))
+    for rp in import_closure(relpaths):
+        body = strip_comments(open(os.path.join(LEAN, rp)).read())
+        for ln, line in enumerate(body.splitlines(), 1):
+            if FORBIDDEN.search(line):
+                hits.append('%s:%d: %s' % (rp, ln, line.strip()[:120]))
     return hits
 
 
@@ -149,7 +159,20 @@ def lean_check_file(relpath, use_cache=True):
         res['cached'] = True
         return res
     t0 = time.time()
-    r = sh(['lake', 'env', 'lean', '--json', relpath], cwd=LEAN, timeout=3000)
+    # audit copy: the property file plus `#print axioms` for every theorem that lacks one, so that
+    # every theorem (helpers included) is audited; original line numbers are preserved
+    text = open(path).read()
+    ns = re.search(r'^namespace\s+([A-Za-z0-9_.]+)', text, re.M)
+    prefix = (ns.group(1) + '.') if ns else ''
+    names = [m.group(2) for m in (DECL_RE.match(l) for l in text.splitlines()) if m and m.group(1) != 'example'
+             and m.group(2) and not m.string.lstrip().startswith('private')]
+    extra = [n for n in names if not re.search(r'^#print axioms\s+%s\s*$' % re.escape(n), text, re.M)]
+    audit_dir = os.path.join(LEAN, '.lake', 'audit')
+    os.makedirs(audit_dir, exist_ok=True)
+    apath = os.path.join(audit_dir, os.path.basename(relpath))
+    with open(apath, 'w') as f:
+        f.write(text + '\n' + ''.join('#print axioms %s%s\n' % (prefix, n) for n in extra))
+    r = sh(['lake', 'env', 'lean', '--json', apath], cwd=LEAN, timeout=3000)
     msgs = []
     for line in r.stdout.splitlines():
         line = line.strip()
